@@ -2,7 +2,7 @@ import CotengraVerif.Driver.Util
 import CotengraVerif.Model.Flow
 
 namespace Cotengra.Driver.C17
-open Lean Cotengra Cotengra.Driver Cotengra.Flow
+open Lean Cotengra Cotengra.Driver Cotengra.Flow Cotengra
 
 def boolOf (j : Json) : Except String Bool := j.getBool?
 
@@ -56,6 +56,14 @@ def draws : Handler := fun j => do
                           ("global_pos", jNat r.global.pos)])
   | none => pure (jObj [("values", Json.null)])
 
-def handlers : List (String × Handler) := [("c17.clean", clean), ("c17.draws", draws)]
+/-- op `c17.sharesafe`: `Share.safe` on a table of (copy depth, mutation depth) rows, and the
+    rows that violate it -/
+def sharesafe : Handler := fun j => do
+  let rows ← pairList (← field j "rows")
+  let bad := (rows.zipIdx.filter fun (r, _) => !decide (r.2 ≤ r.1)).map (·.2)
+  pure (jObj [("safe", jBool (Share.safe rows)), ("bad", jNats bad)])
+
+def handlers : List (String × Handler) :=
+  [("c17.clean", clean), ("c17.draws", draws), ("c17.sharesafe", sharesafe)]
 
 end Cotengra.Driver.C17
